@@ -256,10 +256,18 @@ def check_design(ctx, ej, tj, equipment, network, redesign=False):
         # that repetition is C17's subject, listed there)
         for k, p in enumerate([] if redesign else ordered):
             extra = p.params.att_in - (att0 if k == 0 else 0.0) - moved.get(k, 0.0)
-            if extra < -1e-9 or (extra > 1e-9 and abs(p.loss - padding) > 1e-6):
+            # (the padding is a property of the amplifier-to-amplifier span: fused elements next to the part count)
+            span = [p]
+            for step in (network.predecessors, network.successors):
+                cur = next(iter(step(p)), None)
+                while isinstance(cur, (Fiber, Fused)):
+                    span.append(cur)
+                    cur = next(iter(step(cur)), None)
+            span_loss = sum(float(c.loss) for c in span)
+            if extra < -1e-9 or (extra > 1e-9 and abs(span_loss - padding) > 1e-6):
                 ctx.violation('split-att-in', f'{e["uid"]}: part {k + 1}/{n_parts} has input attenuation '
                               f'{p.params.att_in} dB; the original fibre had {att0} dB at its input (lumped losses on '
-                              f'part boundaries: {moved}); part loss {p.loss:.4f} dB, padding {padding} dB',
+                              f'part boundaries: {moved}); part loss {p.loss:.4f} dB, loss of its span {span_loss:.4f} dB, padding {padding} dB',
                               mechanism='split-fibre-att-in-replicated' if k > 0 and abs(extra - att0) < 1e-9 else None)
                 break
         ll = e['params'].get('lumped_losses') or []
